@@ -306,6 +306,7 @@ func runC15(ctx *Ctx) error {
 		reqs[i], _ = json.Marshal(c15Req{Spec: j.spec, Progs: j.progs})
 	}
 	res := runIsolated("gripper", reqs, 8, 240*time.Second)
+	rerunFailed("gripper", reqs, res, 240*time.Second)
 	for i, j := range jobs {
 		var resp c15Resp
 		r := res[i]
